@@ -55,8 +55,10 @@ HasReq(tr, ll, g) == \E k \in 1..(ll - 1) : tr[k].a = "Req" /\ tr[k].gen = g
 
 Step(ln, tr, ll) ==
     CASE ln.a = "Conn"   -> R!Connect(ln.c)
-      [] ln.a = "Req"    -> R!Req(ln.c, ln.sid, ln.fs, ln.out, ln.gen) /\ RegGensNext(ln.c) = ln.reg
-      [] ln.a = "Close"  -> R!Close(ln.c, ln.sid) /\ RegGensNext(ln.c) = ln.reg
+      \* (whether the relay's own registry agrees with the specification's is judged separately, RegistryVerdict:
+      \*  the specification's registry - what the client has been led to believe - is what later steps are held to)
+      [] ln.a = "Req"    -> R!Req(ln.c, ln.sid, ln.fs, ln.out, ln.gen)
+      [] ln.a = "Close"  -> R!Close(ln.c, ln.sid)
       [] ln.a = "Submit" -> R!Submit(ln.c, ln.e)
       [] ln.a = "FanOut" -> R!FanOut(ln.c, ln.e, ln.r)
                             /\ {<<n.c, n.sid, n.gen>> : n \in pn' \ pn} = Range(ln.targets)
@@ -136,6 +138,7 @@ Adopt(ln) ==
       [] OTHER -> UNCHANGED rvars
 
 Garbage(ln) == ln.a = "Send" /\ ln.f.t = "GARBAGE"
+RegistryVerdict(ln) == IF ln.a \in {"Req", "Close"} /\ RegGensNext(ln.c) # ln.reg THEN {"C13_RegistryAgrees"} ELSE {}
 
 \* an Idle line: the loop cannot make progress without the environment, so nothing may be pending
 IdleVerdict(ln) ==
@@ -163,7 +166,7 @@ TraceNext ==
             /\ bad' = bad \cup {<<n, l>> : n \in EndVerdict(Line)}
        ELSE IF ENABLED Step(Line, Trace, l)
             THEN /\ Step(Line, Trace, l)
-                 /\ bad' = bad \cup {<<n, l>> : n \in R!StepVerdict \cup R!StateVerdict'}
+                 /\ bad' = bad \cup {<<n, l>> : n \in R!StepVerdict \cup R!StateVerdict' \cup RegistryVerdict(Line)}
             ELSE /\ Adopt(Line)
                  /\ bad' = bad \cup {<<"Conform", l>>} \cup {<<n, l>> : n \in R!StepVerdict \cup R!StateVerdict'}
     /\ l' = l + 1
